@@ -109,7 +109,7 @@ def main():
              "kind_free_text": "Rust harness: hand-written generators over a proptest-generated choice vector (shrinks structurally), proptest TestRunner per shard (16 shards, seeds derived from VERIF_SEED), enumerated slices/sweeps, explicit oracles per property (ES reference model esref, differentials, models), crash supervisor with case journal, replay files; built in five variants (release, debug-assertions, prohibit-unsafe+index-positions, utf16, nightly pattern)"},
             {"name": "cfgrun", "path": "/verif/cfgrun", "serves_properties": ["C15"],
              "kind_free_text": "tiny runner (public API only) built once per regress feature set; six persistent processes per shard answer each generated case over a line protocol"},
-            {"name": "fuzzproj", "path": "/verif/fuzzproj", "serves_properties": ["C01", "C06", "C07"],
+            {"name": "fuzzproj", "path": "/verif/fuzzproj", "serves_properties": ["C01", "C02", "C03", "C06", "C07", "C08", "C09", "C10", "C12"],
              "kind_free_text": "cargo-fuzz / libFuzzer targets (nightly, ASan, debug assertions) that decode bytes into the harness's choice vector and run the same semantic oracle in-target; thorough tiers only"},
             {"name": "sendsync_probe", "path": "/verif/sendsync_probe", "serves_properties": ["C19"],
              "kind_free_text": "crate containing only Send + Sync assertions for Regex / Match / Error; failing to compile is the violation"},
